@@ -139,8 +139,8 @@ theorem good_step (s : State) (op : Op) (g : Good s) : Good (stepOp s op) := by
         exact this
       · exact good_tags g _ (archiveAll_kinds s.tags)
     · exact g
-  | set i v => exact good_tags g _ (updTag_kinds _ _ _ (fun _ => rfl))
-  | sim i v => exact good_tags g _ (updTag_kinds _ _ _ (fun _ => rfl))
+  | set i v => exact good_tags g _ (updTag_kinds _ _ _ (fun _ => by split <;> rfl))
+  | sim i v => exact good_tags g _ (updTag_kinds _ _ _ (fun _ => by split <;> rfl))
   | stopSim i => exact good_tags g _ (updTag_kinds _ _ _ (fun _ => rfl))
   | mark i text => exact good_tags g _ (updTag_kinds _ _ _ (fun _ => rfl))
 
@@ -165,7 +165,7 @@ theorem columns_run (ops : List Op) : ∀ s, columns (run s ops).tags = columns 
     · split
       · split <;> exact archiveAll_kinds s.tags
       · rfl
-    all_goals exact updTag_kinds _ _ _ (fun _ => rfl)
+    all_goals exact updTag_kinds _ _ _ (fun _ => by first | rfl | (split <;> rfl))
 
 /-- **Read-back.** For every tag list and every history of operations, reading the archive file with the
     dialect it was written with returns exactly the rows that were archived (`log` = header row followed by
